@@ -435,10 +435,61 @@ fn devnan_ev(case: &Value, out: &mut Vec<Value>) {
     out.push(Value::Object(o));
 }
 
+/// Distances of operands scaled towards the ends of the range: l1 / linf (and the counts) stay exact, l2 stays finite and
+/// below l1 where nothing overflows.
+fn devscale_ev(case: &Value, out: &mut Vec<Value>) {
+    let a = jints(&case["a"]);
+    let b = jints(&case["b"]);
+    let shape = shape_of(case, a.len());
+    let ty = jstr(case, "ty", "f64");
+    let dexp = jint(case, "dexp") as i32;
+    let (l1, l2) = (lay_of(case, "lay1", &shape), lay_of(case, "lay2", &shape));
+    let mut o = case.as_object().unwrap().clone();
+    let unscale = |v: f64| -> i64 { let h = -dexp / 2; let r = v * pow2(h) * pow2(-dexp - h) * 4.0; if r.is_finite() && r.abs() < 1e9 { r.round() as i64 } else { ERR_Q } };
+    macro_rules! fl { ($t:ty) => {{
+        let xa: Vec<$t> = a.iter().map(|&v| (v as f64 / 4.0 * pow2(dexp)) as $t).collect();
+        let xb: Vec<$t> = b.iter().map(|&v| (v as f64 / 4.0 * pow2(dexp)) as $t).collect();
+        let (pa, pb) = (l1.build(&xa, |_| 77.0 as $t), l2.build(&xb, |_| 55.0 as $t));
+        let (va, vb) = (l1.view(&pa), l2.view(&pb));
+        let g = |r: Result<Result<$t, ndarray_stats::errors::MultiInputError>, ()>| -> i64 { match r { Ok(Ok(v)) => unscale(v as f64), _ => ERR_Q } };
+        o.insert("ceq".into(), json!(match guarded(|| va.count_eq(&vb)) { Ok(Ok(v)) => v as i64, _ => -1 }));
+        o.insert("l1q".into(), json!(g(guarded(|| va.l1_dist(&vb)))));
+        o.insert("linfq".into(), json!(g(guarded(|| va.linf_dist(&vb)))));
+        o.insert("l1s".into(), json!(g(guarded(|| vb.l1_dist(&va)))));
+        o.insert("linfs".into(), json!(g(guarded(|| vb.linf_dist(&va)))));
+        let n = a.len() as f64;
+        o.insert("maeq".into(), json!(match guarded(|| va.mean_abs_err(&vb)) { Ok(Ok(v)) => unscale(v * n), _ => ERR_Q }));
+        let l1f: f64 = match guarded(|| va.l1_dist(&vb)) { Ok(Ok(v)) => v as f64, _ => f64::NAN };
+        let (c, le) = match guarded(|| va.l2_dist(&vb)) { Ok(Ok(v)) => (if v.is_nan() { "nan" } else if v.is_infinite() { "inf" } else { "fin" }, v >= 0.0 && v <= l1f * (1.0 + 1e-6)), _ => ("err", false) };
+        o.insert("l2c".into(), json!(c));
+        o.insert("l2le".into(), json!(le));
+    }}; }
+    macro_rules! it { ($t:ty) => {{
+        let m: $t = (10 as $t).pow(dexp as u32);
+        let xa: Vec<$t> = a.iter().map(|&v| v as $t * m).collect();
+        let xb: Vec<$t> = b.iter().map(|&v| v as $t * m).collect();
+        let (pa, pb) = (l1.build(&xa, |_| 77 as $t), l2.build(&xb, |_| 55 as $t));
+        let (va, vb) = (l1.view(&pa), l2.view(&pb));
+        let g = |r: Result<Result<$t, ndarray_stats::errors::MultiInputError>, ()>| -> i64 { match r { Ok(Ok(v)) if v % m == 0 => (v / m) as i64, _ => ERR_Q } };
+        o.insert("ceq".into(), json!(match guarded(|| va.count_eq(&vb)) { Ok(Ok(v)) => v as i64, _ => -1 }));
+        o.insert("l1q".into(), json!(g(guarded(|| va.l1_dist(&vb)))));
+        o.insert("linfq".into(), json!(g(guarded(|| va.linf_dist(&vb)))));
+        o.insert("l1s".into(), json!(g(guarded(|| vb.l1_dist(&va)))));
+        o.insert("linfs".into(), json!(g(guarded(|| vb.linf_dist(&va)))));
+        o.insert("maeq".into(), json!(0));
+        o.insert("l2c".into(), json!("na"));
+        o.insert("l2le".into(), json!(true));
+    }}; }
+    match ty { "f32" => fl!(f32), "f64" => fl!(f64), "i32" => it!(i32), _ => it!(i64) }
+    o.insert("shape".into(), json!(shape));
+    out.push(Value::Object(o));
+}
+
 pub fn run(case: &Value, _params: &Params, out: &mut Vec<Value>) {
     let ev = jstr(case, "ev", "");
     let ty = jstr(case, "ty", "f64");
     if ev == "devnan" { return devnan_ev(case, out); }
+    if ev == "devscale" { return devscale_ev(case, out); }
     match ev {
         "summ" => match ty { "f32" => summ_float::<f32>(case, out), "f64" => summ_float::<f64>(case, out), _ => summ_int(case, out) },
         "corr" => match ty { "f32" => corr_ev::<f32>(case, out), _ => corr_ev::<f64>(case, out) },
@@ -473,7 +524,9 @@ pub fn gen(seed: u64, count: usize, tier: &str, params: &Params) -> Vec<Value> {
                 let stat = *rng.pick(&["mean", "mean", "wsum", "wmean", "harmonic", "geometric", "wsum_axis", "wmean_axis", "mean_int", "wsum_int", "wmean_int", "wsum_axis_int", "wmean_axis_int"]);
                 // now and then a long array (blocked / unrolled accumulation has its corner cases beyond a block length)
                 let long = rng.chance(1, 10) && matches!(stat, "mean" | "wsum" | "wmean" | "mean_int" | "wsum_int" | "wmean_int" | "geometric" | "harmonic");
-                let n = if long { *rng.pick(&[127usize, 128, 129, 130, 131, 255, 257, 300]) } else { rng.range(1, if big { 12 } else { 8 }) as usize };
+                // ... and beyond a thousand elements for the plain mean (a blocked mean must weight an uneven last block correctly)
+                let vlong = long && matches!(stat, "mean" | "mean_int") && rng.chance(1, 3);
+                let n = if vlong { *rng.pick(&[1025usize, 1100, 1536, 2049, 2050]) } else if long { *rng.pick(&[127usize, 128, 129, 130, 131, 255, 257, 300]) } else { rng.range(1, if big { 12 } else { 8 }) as usize };
                 let ty = if stat.ends_with("_int") { *rng.pick(&["i32", "i64", "u8"]) } else { *rng.pick(&["f64", "f64", "f32"]) };
                 let f32ty = ty == "f32";
                 // u8 can neither hold an element count above 255 nor larger sums: stay inside the property's no-overflow domain
@@ -623,14 +676,23 @@ pub fn gen(seed: u64, count: usize, tier: &str, params: &Params) -> Vec<Value> {
                 // many observations (block boundaries 8, 16, 32, 64 and their neighbours): covariance against the definition,
                 // correlation by its laws (the exact squared-correlation identity does not fit 31 bits here)
                 let nv = rng.range(1, 2) as usize;
-                let no = *rng.pick(&[7usize, 8, 9, 15, 16, 17, 24, 31, 32, 33, 48, 63, 64]);
+                let no = if rng.chance(1, 2) { *rng.pick(&[7usize, 8, 9, 15, 16, 17, 24, 31, 32, 33, 48, 63, 64]) } else { rng.range(33, 64) as usize };
                 let rows: Vec<Vec<i64>> = (0..nv).map(|_| { let mut r: Vec<i64> = (0..no).map(|_| rng.range(-1, 1)).collect(); if r.iter().all(|&v| v == r[0]) { r[0] += 1; } r }).collect();
                 let fancy = rng.chance(1, 2);
                 let lay = random_lay(&mut rng, &[nv, no], fancy);
                 let ty = *rng.pick(&["f64", "f64", "f32"]);
                 let sexp = if ty == "f32" { *rng.pick(&[1i64, 10, 40, -30]) } else { *rng.pick(&[1i64, 20, 200, 400, -300]) };
-                cases.push(json!({"ev": "corr", "ty": ty, "rows": rows, "S": 1, "d": rng.range(0, 2), "bexp": if ty == "f32" { -1 } else { *rng.pick(&[-1i64, 10, 20]) },
-                                  "qe": 6, "tol": 2, "k": rng.below(nv as u64), "sexp": sexp, "lay1": lay.to_json()}));
+                // the finest resolution at which the exact comparison fits 31 bits: 2 n^3 2^qe < 2^30
+                let mut qe = 0i64; while (2 * (no as i64).pow(3)) << (qe + 1) < (1i64 << 30) { qe += 1; }
+                let qe = qe.min(if ty == "f32" { 14 } else { 16 });
+                // fractional ddof: usually 0, 1/2 or 1, sometimes anything below n, sometimes just below n (n - ddof = 1/2) on data whose
+                // mean is not representable and much larger than the spread (offset 2^14 resp. 2^43: the error of the computed mean,
+                // squared and summed, stays a quarter of a quantum; a term that grows with n^2 does not)
+                let neardof = no >= 30 && !no.is_power_of_two() && rng.chance(1, 4);
+                let d = if neardof { 2 * no as i64 - 1 } else if rng.chance(1, 4) { rng.range(0, 2 * no as i64 - 1) } else { rng.range(0, 2) };
+                let bexp = if neardof { if ty == "f32" { 14 } else { 43 } } else if ty == "f32" { -1 } else { *rng.pick(&[-1i64, 10, 20]) };
+                cases.push(json!({"ev": "corr", "ty": ty, "rows": rows, "S": 1, "d": d, "bexp": bexp, "covonly": neardof,
+                                  "qe": qe, "tol": 2, "k": rng.below(nv as u64), "sexp": sexp, "lay1": lay.to_json()}));
             }
             "corr" => {
                 let nv = rng.range(1, 4) as usize;
@@ -645,7 +707,8 @@ pub fn gen(seed: u64, count: usize, tier: &str, params: &Params) -> Vec<Value> {
                 let lay = random_lay(&mut rng, &[nv, no], fancy);
                 let ty = *rng.pick(&["f64", "f64", "f32"]);
                 let sexp = if ty == "f32" { *rng.pick(&[1i64, 10, 40, -30]) } else { *rng.pick(&[1i64, 20, 200, 400, -300]) };
-                cases.push(json!({"ev": "corr", "ty": ty, "rows": rows, "S": 1, "d": rng.range(0, 2), "bexp": if ty == "f32" { *rng.pick(&[-1i64, -1, 8]) } else { *rng.pick(&[-1i64, 10, 20, 26, 30]) },
+                let d = if rng.chance(1, 3) { rng.range(0, 2 * no as i64 - 1) } else { rng.range(0, 2) };
+                cases.push(json!({"ev": "corr", "ty": ty, "rows": rows, "S": 1, "d": d, "bexp": if ty == "f32" { *rng.pick(&[-1i64, -1, 8]) } else { *rng.pick(&[-1i64, 10, 20, 26, 30]) },
                                   "qe": 6, "tol": 2, "k": rng.below(nv as u64), "sexp": sexp, "lay1": lay.to_json()}));
             }
             "dev" if rng.chance(1, 6) => {
@@ -675,6 +738,18 @@ pub fn gen(seed: u64, count: usize, tier: &str, params: &Params) -> Vec<Value> {
                 let mut b = b;
                 if inf_case { let k = rng.below(n as u64) as usize; if rng.chance(1, 3) { a[k] = 97; b[k] = 97; } else { a[k] = 98; } }
                 cases.push(json!({"ev": "devnan", "a": a, "b": b, "shape": shape, "lay1": lay1, "lay2": lay2}));
+            }
+            "dev" if rng.chance(1, 8) => {
+                // operands scaled by an exact power of two far towards either end of the range (floats; squares of the differences
+                // under- or overflow, the differences do not) or by a power of ten (integers; squares of the differences do not fit)
+                let n = rng.range(1, 8) as usize;
+                let shape = random_shape(&mut rng, n);
+                let (lay1, lay2) = two_lays(&mut rng, &shape);
+                let a: Vec<i64> = (0..n).map(|_| rng.range(-12, 12)).collect();
+                let b: Vec<i64> = a.iter().map(|&v| if rng.chance(1, 3) { v } else { rng.range(-12, 12) }).collect();
+                let ty = *rng.pick(&["f64", "f64", "f32", "i32", "i64"]);
+                let dexp: i64 = match ty { "f64" => *rng.pick(&[-1070i64, -1060, -600, 600, 1000]), "f32" => *rng.pick(&[-140i64, -130, -80, 80, 120]), "i32" => 4, _ => 10 };
+                cases.push(json!({"ev": "devscale", "ty": ty, "a": a, "b": b, "dexp": dexp, "shape": shape, "lay1": lay1, "lay2": lay2}));
             }
             "dev" => {
                 let n = if rng.chance(1, 5) { rng.range(10, 40) } else { rng.range(1, if big { 16 } else { 9 }) } as usize;
